@@ -22,8 +22,10 @@ RULE = ("archives of C09/C13 (single/multi-folder, directories, empty files) x e
         "factory writes). Offline checker over the recorded log (seq, monotonic ns, thread, event, args) with close() entry/return stamped in the same log: first "
         "event start_preparation, last postprocess; every member that receives events gets exactly one start then one end with its name; end byte count == member "
         "size; sum(update) == bytes decoded for delivered non-empty members; every delivered member is among the reported; nothing stamped after close() returned; "
-        "reporter thread dead after close(); close() does not raise. Cell = (archive shape, call, open mode, sink, handler, distinct schedule).")
-ASSUMPTIONS = ["one extraction per session", "'processed' is defined by observation: the members that receive at least one event"]
+        "reporter thread dead after close(); close() does not raise. Histories on one object: two extractions with different callbacks, an extraction without "
+        "callback before/after one with, a handler blocking 60 ms per event (the queue outlasts one second), mp=True: every callback gets one complete account of its "
+        "own extraction and nothing else. Cell = (archive shape, call, open mode, sink, handler, distinct schedule).")
+ASSUMPTIONS = ["'processed' is defined by observation: the members that receive at least one event"]
 
 
 def cases(rng, tier):
@@ -35,6 +37,12 @@ def cases(rng, tier):
                     "seed": rng.getrandbits(32), "runs": 6 if tier == "quick" else 10,
                     # small I/O block / extraction chunk: members are decoded in several rounds (as members above 1 MiB / 128 MB are)
                     "block": rng.choice([None, None, 4096, 100]), "chunk": rng.choice([None, 1000, 100, 16])})
+    # histories on one object, slow handlers, process workers
+    for i in range(20 if tier == "quick" else 300):
+        mem, nf = c09._gen_archive(rng, 6)
+        out.append({"kind": "history", "shape": ["two-callbacks", "nocb-then-cb", "cb-then-nocb", "slow-handler", "mp"][i % 5],
+                    "members": [[n_, k, (b or b"").hex()] for n_, k, b in mem], "folders": nf if i % 5 != 4 else max(2, nf), "writer": rng.choice(["ref", "py"]),
+                    "chain": rng.choice(["LZMA2", "COPY"]), "seed": rng.getrandbits(32), "open": rng.choice(["path", "stream"]), "block": None, "chunk": None})
     return out
 
 
@@ -124,11 +132,107 @@ def check_log(log, close_ret_ns, sizes, delivered, tag):
     return bad
 
 
+def _run_history(case):
+    """Several extractions on one object, a handler that blocks long enough for the queue to outlast close()'s patience,
+    and process workers: every callback must get one complete account of its own extraction and nothing else."""
+    import py7zr
+
+    from vf.core import worker as WK
+
+    viol = []
+    obs = {k: 0 for k in REQUIRED_OBS}
+    shape = case["shape"]
+    with pz.scratch("vf-c18h-") as d:
+        mem, data = c09._build(case, d)
+        names = [n for n, _, _ in mem]
+        kinds = {n: k for n, k, _ in mem}
+        sizes = {n: (len(b) if k == "file" else 0) for n, k, b in mem}
+        path = os.path.join(d, "a.7z")
+        with open(path, "wb") as f:
+            f.write(data)
+        try:
+            gn, full = pz.read_mem(io.BytesIO(data))
+        except Exception:
+            return K.result("held", cell="skip-unreadable", nontrivial=False, obs={"skipped": 1})
+        if gn != names:
+            return K.result("held", cell="skip-names", nontrivial=False, obs={"skipped": 1})
+        if shape == "mp" and len(set(n.split("/")[0] for n in names)) == 0:
+            return K.result("held", cell="skip", nontrivial=False, obs={"skipped": 1})
+        delivered = {n for n in names if kinds[n] == "file" and sizes[n] > 0}
+        logs = [([], threading.Lock()), ([], threading.Lock())]
+        block = 60 if shape == "slow-handler" else 0
+        cbs = [_make_callback(lg, lk, block, False) for lg, lk in logs]
+        src = path if (case["open"] == "path" or shape == "mp") else io.BytesIO(data)
+        err = close_err = None
+        z = None
+        try:
+            with WK.inner_budget(60.0):
+                z = py7zr.SevenZipFile(src, "r", mp=(shape == "mp"))
+                if shape == "two-callbacks":
+                    z.extractall(callback=cbs[0], factory=pz.CollectFactory())
+                    z.reset()
+                    z.extractall(callback=cbs[1], factory=pz.CollectFactory())
+                elif shape == "nocb-then-cb":
+                    z.extractall(factory=pz.CollectFactory())
+                    z.reset()
+                    z.extractall(callback=cbs[1], factory=pz.CollectFactory())
+                elif shape == "cb-then-nocb":
+                    z.extractall(callback=cbs[0], factory=pz.CollectFactory())
+                    z.reset()
+                    z.extractall(factory=pz.CollectFactory())
+                elif shape == "slow-handler":
+                    z.extractall(callback=cbs[0], factory=pz.CollectFactory())
+                else:
+                    z.extractall(path=os.path.join(d, "out"), callback=cbs[0])
+        except WK.CpuBudget:
+            raise
+        except Exception as e:
+            err = e
+        rep = getattr(z, "reporterd", None) if z is not None else None
+        try:
+            if z is not None:
+                z.close()
+        except Exception as e:
+            close_err = e
+        close_ret = time.monotonic_ns()
+        time.sleep(0.05)
+        tag = "history %s (%s, %d folders, %d members)" % (shape, "path" if isinstance(src, str) else "stream", case["folders"], len(names))
+        obs["runs"] = 1
+        obs["histories"] = 1
+        obs["callback_events"] = sum(len(lg) for lg, _ in logs)
+        if err is not None:
+            viol.append({"key": "extract-raises/%s" % type(err).__name__, "what": "%s: %s" % (tag, pz.exc_sig(err))})
+        else:
+            if close_err is not None:
+                viol.append({"key": "close-raises/%s" % type(close_err).__name__, "what": "%s: close() raised %s with %d events delivered" % (tag, pz.exc_sig(close_err), obs["callback_events"])})
+            if rep is not None and rep.is_alive():
+                viol.append({"key": "reporter-alive-after-close", "what": "%s: reporter thread still alive after close()" % tag})
+            used = {"two-callbacks": (0, 1), "nocb-then-cb": (1,), "cb-then-nocb": (0,), "slow-handler": (0,), "mp": (0,)}[shape]
+            for i in used:
+                for code, text in check_log(list(logs[i][0]), close_ret, sizes, delivered, "%s, callback %d" % (tag, i + 1)):
+                    viol.append({"key": "log/%s/history-%s" % (code, shape), "what": text})
+                obs["members_paired"] += len({e[4][0] for e in logs[i][0] if e[3] == "start"})
+            for i in (0, 1):
+                if i not in used and logs[i][0]:
+                    viol.append({"key": "log/events-for-a-callback-not-in-use", "what": "%s: callback %d received %d events" % (tag, i + 1, len(logs[i][0]))})
+        obs["schedules_controlled"] = 0
+    cell = "history|%s|%s|f%d" % (shape, "path" if isinstance(src, str) else "stream", case["folders"])
+    sample = {"history": shape, "members": len(names), "folders": case["folders"], "events": obs["callback_events"]}
+    if viol:
+        seen = {}
+        for v in viol:
+            seen.setdefault(v["key"], v)
+        return K.result("violated", violations=list(seen.values()), cells=[cell], obs=obs, sample=sample)
+    return K.result("held", cells=[cell], obs=obs, sample=sample)
+
+
 def run_case(case):
     import py7zr
 
     from vf.core import worker as WK
 
+    if case.get("kind") == "history":
+        return _run_history(case)
     viol = []
     obs = {k: 0 for k in REQUIRED_OBS}
     cells = set()
